@@ -2,7 +2,12 @@ use super::*;
 use crate::{base::SentinelRule, logging, utils};
 use lazy_static::lazy_static;
 use std::collections::{HashMap, HashSet};
+#[cfg(not(sentinel_verif))]
 use std::sync::{Arc, Mutex, RwLock};
+#[cfg(sentinel_verif)]
+use std::sync::{Arc};
+#[cfg(sentinel_verif)]
+use crate::verif_sync::{Mutex, RwLock};
 
 pub type RuleMap = HashMap<MetricType, HashSet<Arc<Rule>>>;
 
